@@ -188,8 +188,6 @@ def check(repo, res, tier):
 
 
 def check_d1(res, f, names):
-    if not names:
-        return
     reported = set()
 
     def flag(node, what, why):
@@ -219,6 +217,14 @@ def check_d1(res, f, names):
                 'list', 'tuple', 'iter', 'enumerate', 'next', 'zip', 'reversed') and n.args and \
                 is_set_expr(n.args[0], names):
             flag(n, short(ast.unparse(n), 100), 'materialises a set in hash order')
+        elif isinstance(n, ast.Call) and isinstance(n.func, ast.Attribute) and n.func.attr in ('extend', 'join') \
+                and len(n.args) == 1 and is_set_expr(n.args[0], names) and not is_set_expr(n.func.value, names):
+            flag(n, short(ast.unparse(n), 100),
+                 'appends the elements of a set to a sequence in hash order: the order of the sequence (and whatever '
+                 'is later taken from it first) depends on PYTHONHASHSEED')
+        elif isinstance(n, ast.AugAssign) and isinstance(n.op, ast.Add) and is_set_expr(n.value, names) \
+                and not is_set_expr(n.target, names):
+            flag(n, short(ast.unparse(n), 100), 'extends a sequence with a set in hash order')
         elif isinstance(n, ast.Call) and isinstance(n.func, ast.Attribute) and n.func.attr == 'pop' \
                 and not n.args and is_set_expr(n.func.value, names):
             flag(n, short(ast.unparse(n), 100), 'set.pop() returns a hash-order dependent element')
